@@ -25,6 +25,12 @@ def make_scratch(repo='/repo'):
 
 def apply_edits(root, edits):
     for e in edits:
+        if 'patch' in e:
+            cmd = ['patch', '-p1', '-s', '--no-backup-if-mismatch'] + (['-R'] if e.get('reverse') else []) + ['-i', os.path.join(VERIF, e['patch'])]
+            r = subprocess.run(cmd, cwd=root, stdout=subprocess.PIPE, stderr=subprocess.STDOUT, text=True)
+            if r.returncode != 0:
+                return 'stale: patch %s does not apply: %s' % (e['patch'], r.stdout[-300:])
+            continue
         p = os.path.join(root, e['file'])
         s = open(p).read()
         n = s.count(e['old'])
